@@ -56,24 +56,33 @@ def ser(n):
     return {"k": type(n).__name__, "p": pos, "a": attrs, "c": kids}
 
 
-def check_wf(t, parent_span=None):
-    """The CPython facts the Lean proofs assume (DESIGN.md 3.2 `WF`)."""
+def check_wf(t, spans=()):
+    """The CPython facts the Lean proofs assume (`Props.C10.TreeWF`, `Node.spanOK`):
+    * a span is non-empty and starts at line >= 1;
+    * an unpositioned list member has unpositioned list-siblings (linerange's sibling workaround never fires);
+    * no node has the pseudo-kind `File`;
+    * the first line of every positioned node lies inside the span of every positioned ancestor — except below the
+      `decorator_list` of a function / class definition (decorators precede the `def` line; `Node.spanOK` is false for
+      such a definition and the theorems that assume it say nothing about it)."""
     p = t["p"]
+    if t["k"] == "File":
+        raise WFError("node of pseudo-kind File")
     if p is not None:
         if not (p[0] <= p[1]):
             raise WFError(f"end before start: {t['k']} {p}")
         if p[0] < 1:
             raise WFError(f"line < 1: {t['k']}")
+        for sp in spans:
+            if not (sp[0] <= p[0] <= sp[1]):
+                raise WFError(f"{t['k']} at line {p[0]} outside an ancestor's span {sp}")
     for f, is_list, ns in t["c"]:
-        if p is None and is_list:
-            # list-siblings of an unpositioned node must be unpositioned (linerange's sibling workaround never fires)
-            pass
+        below = () if f == "decorator_list" else (spans + ((p,) if p is not None else ()))
         for i, c in enumerate(ns):
             if c["k"] == "#atom":
                 continue
             if is_list and c["p"] is None and i + 1 < len(ns) and ns[i + 1]["p"] is not None:
                 raise WFError(f"unpositioned node {c['k']} with positioned list sibling")
-            check_wf(c, p or parent_span)
+            check_wf(c, below)
     if t["k"] in ("Name",) and "." in t["a"]["id"][1]:
         raise WFError("dotted identifier")
 
